@@ -206,9 +206,18 @@ def sexp_str(s):
     return "".join(out)
 
 
-def _pipe(cmd, lines, env=None):
+def _big_stack():
+    import resource
+    try:
+        resource.setrlimit(resource.RLIMIT_STACK, (resource.RLIM_INFINITY, resource.RLIM_INFINITY))
+    except (ValueError, OSError):
+        pass
+
+
+def _pipe(cmd, lines, env=None, big_stack=False):
     """feed `lines` to a line-protocol process; return (answers, returncode)"""
-    p = subprocess.Popen(cmd, stdin=subprocess.PIPE, stdout=subprocess.PIPE, stderr=subprocess.DEVNULL, env=env)
+    p = subprocess.Popen(cmd, stdin=subprocess.PIPE, stdout=subprocess.PIPE, stderr=subprocess.DEVNULL, env=env,
+                         preexec_fn=_big_stack if big_stack else None)
     data = ("\n".join(lines) + "\n").encode("utf-8", "surrogateescape")
 
     def feed():
@@ -276,7 +285,7 @@ def run_model(lines, workers=None):
     if workers is None:
         workers = NCPU
     if len(lines) < 2000 or workers <= 1:
-        got, rc = _pipe([MODEL_BIN], lines)
+        got, rc = _pipe([MODEL_BIN], lines, big_stack=True)
         if len(got) != len(lines):
             raise RuntimeError("model driver answered %d of %d requests (rc=%s)" % (len(got), len(lines), rc))
         return got
@@ -287,7 +296,7 @@ def run_model(lines, workers=None):
     errs = []
 
     def work(i):
-        got, rc = _pipe([MODEL_BIN], shards[i])
+        got, rc = _pipe([MODEL_BIN], shards[i], big_stack=True)
         if len(got) != len(shards[i]):
             errs.append("model driver answered %d of %d (rc=%s)" % (len(got), len(shards[i]), rc))
         results[i] = got
